@@ -648,12 +648,7 @@ def check_candidates(ctx: Ctx, rules: Dict[str, str]):
             "strict comparison: candidates exactly at n*delta_empty are discarded (the paper's cut keeps them)")
     try:
         ex = Extractor({n_name: Rat.var("n"), c2n_name: Rat.var("c2n"), p_delta: Rat.var("Δ")})
-        thr_e = thr
-        while isinstance(thr_e, ast.Name) and thr_e.id not in ex.env:
-            d = _single(f, thr_e.id)
-            if d is None:
-                break
-            thr_e = d
+        thr_e = expand_locals(f.node, thr, skip=(n_name, c2n_name, p_delta))
         got = ex.ev(thr_e)
         want = Rat.var("c2n") * Rat.var("Δ") * Rat.var("n")
         k.check("threshold", got == want, thr_e, "threshold on the pair-sum = C(n,2) * n * delta_empty, i.e. disorder <= n*delta_empty after normalisation",
